@@ -363,7 +363,7 @@ def _len_choice(r, vc, lo=0, hi=None):
     if not vc.small:
         pool += [127, 128, 130]
         if vc.big_strings:
-            pool += [1001, 1100, 2500]
+            pool += [301, 1001, 1100, 2500, 301, 1001]
     if hi is not None:
         pool = [x for x in pool if lo <= x <= hi] or [lo]
     else:
